@@ -276,7 +276,7 @@ def long(case, ctx):
 def giant_case(draw, tier="quick"):
     # four cases in five above 2^26 elements (1 GiB of complex128 for the matrix alone)
     # (a kernel above a size threshold is above every lower threshold too: most cases sit at the top of the range)
-    K = int(2 ** (draw(st.floats(26.8, 27.3)) if draw(st.integers(0, 4)) else draw(st.floats(24.0, 26.8))))
+    K = int(2 ** (draw(st.floats(26.2, 26.8)) if draw(st.integers(0, 4)) else draw(st.floats(24.0, 26.2))))
     os_ = draw(st.sampled_from([1, 1, 2, 3]))
     m = int(np.exp(draw(st.floats(np.log(60.0), np.log(float(min(int(np.sqrt(K)), 12000)))))))
     Nr = max(int(np.ceil(m / os_)), K // m // os_ + draw(st.integers(0, 2))) * os_
@@ -287,7 +287,7 @@ def giant_case(draw, tier="quick"):
 
 
 hyp("C05", "giant", lambda tier: giant_case(tier),
-    "pupils of 60..12000 x 2..3 samples imaged over exactly one period with transform kernels of 2^24 .. 2^27.3 "
+    "pupils of 60..12000 x 2..3 samples imaged over exactly one period with transform kernels of 2^24 .. 2^26.8 "
     "elements (mostly at the top, up to what the memory cap allows), long axis first and long axis second: the image carries the input power",
     examples=(3, 5), budget_s=(400, 900), max_shards=2)(lambda case, ctx: [long(dict(case, axis=a), ctx) for a in (0, 1)] and None)
 
